@@ -6,7 +6,7 @@ import ast
 from ..model import CFG
 from .common import site_of
 from . import counters, eqsym
-from .flow import (facts_imply_nonempty, facts_imply_empty, Oblig, calls, events, deps_of, arg_deps, facts_on_path, has_fact, check_escapes, SELF, P)
+from .flow import (own, facts_imply_nonempty, facts_imply_empty, Oblig, calls, events, deps_of, arg_deps, facts_on_path, has_fact, check_escapes, SELF, P)
 
 CYK = "pyformlang.cfg.cyk_table.CYKTable"
 EXPLANATION = (
@@ -56,7 +56,7 @@ def run(eng, rep, tier):
     else:
         sg = interp.run_entry(guard, CYK)
         consts = {ev.value.const for ev in sg.events if ev.kind == "ret" and ev.value is not None and ev.value.has_const()}
-        mem = [ev for ev in sg.events if ev.kind == "member" and ev.recv is not None
+        mem = [ev for ev in own(sg) if ev.kind == "member" and ev.recv is not None
                and any(l[1] and l[1][-1] == "_productions_d" for l in ev.recv.alias)]
         dep = ("self", ("_productions_d",)) in deps_of(sg.ret) and ("self", ("_word",)) in deps_of(sg.ret)
         ob.decide("R6", "C08.1", guard, "guard-tests-membership", bool(mem) and dep and True not in (consts - {True, False}),
@@ -68,7 +68,7 @@ def run(eng, rep, tier):
     si = interp.run_entry(init, CYK)
     defined = any(ev.kind == "write" and ev.wkind == "subscript" and ev.recv is not None and
                   ("self", ("_cyk_table",)) in ev.recv.alias and has_fact(ev.facts, "_generates_all_terminals()", False)
-                  and ev.args and ("self", ("_word",)) in deps_of(ev.args[0]) for ev in si.events)
+                  and ev.args and ("self", ("_word",)) in deps_of(ev.args[0]) for ev in own(si))
     ob.decide("R6", "C08.1", init, "full-span-cell-defined-when-unknown-terminal", defined,
               "when a terminal is unknown the full-span cell is set (to the empty set) before generate_word reads it",
               "with an unknown terminal the full-span cell is never defined: generate_word raises KeyError", None,
@@ -96,7 +96,7 @@ def run(eng, rep, tier):
                                           for t in tts) for ev, _ in news),
               "the word is converted with to_terminal before use", "the word is not normalised with to_terminal", summ,
               site=site_of(prog, fi, fi.node))
-    epsf = [ev for ev in summ.events if ev.kind == "compare" and any("cfg.epsilon.Epsilon" in str(sorted(a.types or ()))
+    epsf = [ev for ev in own(summ) if ev.kind == "compare" and any("cfg.epsilon.Epsilon" in str(sorted(a.types or ()))
                                                                      for a in ev.args)]
     ob.decide("R1", "C08.3", fi, "epsilon-filtered", bool(epsf), "epsilon symbols are filtered out of the word",
               "epsilon symbols of the word are not filtered", summ, site=site_of(prog, fi, fi.node))
